@@ -7,6 +7,7 @@ import Pyunicorn.Lemmas.RelabelGeoRec
 import Pyunicorn.Lemmas.RelabelR4
 import Pyunicorn.Lemmas.RelabelRec4
 import Pyunicorn.Lemmas.RelabelAssort
+import Pyunicorn.Lemmas.RelabelR5
 import Mathlib.Algebra.BigOperators.Group.List.Basic
 import Mathlib.Data.List.Nodup
 /-!
@@ -378,6 +379,43 @@ theorem net_assortativity_relabel (h : IsPerm n idx) (directed : Bool) (a : Adj)
     (fun _ _ _ _ => rfl)
   rw [sum_ones, sum_ones] at this
   exact_mod_cast this
+
+/-- **local vulnerability** (round 5; was oracle-only): `local_vulnerability()` builds, for every
+node `i`, the graph `self.graph - i` — igraph deletes the vertex and *renumbers the later ones by
+shifting them down* (`removeNode`) — runs the BFS on it and returns `(E − E_i)/E`.  Removing new
+node `i` from the renumbered network and old node `idx i` from the original gives two networks on
+`n − 1` nodes that are renumberings of each other by the conjugated permutation
+`removedPerm idx i = down (idx i) ∘ idx ∘ up i` (a permutation of `0..n-2`); hence the BFS distances
+of the reduced networks correspond, their efficiencies are equal, and the vulnerability of new node
+`i` is that of old node `idx i` — including the `nan` case `E = 0`. -/
+theorem net_vulnerability_relabel (h : IsPerm n idx) (a : Adj) (i : Nat) (hi : i < n) :
+    IsPerm (n - 1) (removedPerm idx i) ∧
+    (∀ x y, x < n - 1 → y < n - 1 →
+      removeNode (mat a idx) i x y = removeNode a (idx i) (removedPerm idx i x) (removedPerm idx i y)) ∧
+    (∀ x y, x < n - 1 → y < n - 1 →
+      dist (n - 1) (removeNode (mat a idx) i) x y
+        = dist (n - 1) (removeNode a (idx i)) (removedPerm idx i x) (removedPerm idx i y)) ∧
+    globalEfficiency (n - 1) (dist (n - 1) (removeNode (mat a idx) i))
+      = globalEfficiency (n - 1) (dist (n - 1) (removeNode a (idx i))) ∧
+    localVulnerability n (mat a idx) i = localVulnerability n a (idx i) :=
+  ⟨removedPerm_isPerm h hi, fun _ _ hx hy => removeNode_relabel h a hi hx hy,
+    dist_removeNode_renumbered h a hi, efficiency_removeNode_relabel h a hi,
+    localVulnerability_relabel h a hi⟩
+
+/-- **cliquishness kernels** (round 5; was oracle-only): `_local_cliquishness_4thorder` /
+`_5thorder` (C03's `cliqLoop`: one neighbour buffer for all nodes, filled in index order, the slots
+beyond the current degree keeping what earlier nodes left there; three / four nested loops over the
+buffer) called as `local_cliquishness(order)` does — `degree` = the row sums of `A` — return on the
+renumbered network the renumbered array: the buffer of new node `i` holds the neighbours of old
+node `idx i` in another order (`nbrs_relabel_perm`), the nested counts do not depend on that order
+(`counter4_perm`, `counter5_perm`), and the stale slots are never read. -/
+theorem net_cliquishness_relabel (h : IsPerm n idx) (order : Nat) (a : Adj) :
+    cliquishness order n (mat a idx) (outdeg n (mat a idx))
+      = nodeList n idx 0 (cliquishness order n a (outdeg n a)) ∧
+    ∀ v, v < n → (cliquishness order n (mat a idx) (outdeg n (mat a idx))).getD v 0
+      = (cliquishness order n a (outdeg n a)).getD (idx v) 0 := by
+  refine ⟨cliquishness_relabel h order a, fun v hv => ?_⟩
+  rw [cliquishness_relabel h order a, nodeList_getD n idx 0 _ v hv]
 
 /-! ## C11 model: cross / internal measures, node lists renumbered with the network -/
 open Pyunicorn.Cross
@@ -764,6 +802,18 @@ example : coreness 4 exAdj false = [1, 1, 1, 0] ∧
 example : edgeList false 4 exAdj = [(0, 1), (1, 2)] ∧
     edgeList false 4 (mat exAdj exPerm) = [(0, 3), (1, 3)] ∧
     assortativity false 4 exAdj = some (-1) := by decide +kernel
+/-- `K₄` on 0,1,2,3 with the pendant node 4 attached to 0 -/
+def exAdj5 : Net.Adj := fun i j => i != j && ((i < 4 && j < 4) || (i + j == 4 && i * j == 0))
+def exPerm5 : Nat → Nat := fun a => [4, 2, 0, 3, 1].getD a a
+example : IsPerm 5 exPerm5 := by unfold IsPerm; decide
+example : (List.range 4).map (removedPerm exPerm5 2) = [3, 1, 2, 0] ∧
+    (List.range 4).map (removedPerm exPerm5 0) = [2, 0, 3, 1] := by decide
+example : localVulnerability 5 (mat exAdj5 exPerm5) 2 = localVulnerability 5 exAdj5 0 ∧
+    localVulnerability 5 exAdj5 0 ≠ localVulnerability 5 exAdj5 1 ∧
+    localVulnerability 5 exAdj5 0 ≠ none := by decide +kernel
+example : cliquishness 4 5 exAdj5 (outdeg 5 exAdj5) = [1/4, 1, 1, 1, 0] ∧
+    cliquishness 4 5 (mat exAdj5 exPerm5) (outdeg 5 (mat exAdj5 exPerm5)) = [0, 1, 1/4, 1, 1] := by
+  decide +kernel
 example : nodes 4 exPerm [0, 3] = [1, 2] ∧ (nodes 4 exPerm [0, 3]).map exPerm = [0, 3] := by
   decide +kernel
 /-- links of the path 0 — 1 — 2 listed in two different orders / orientations -/
